@@ -29,7 +29,7 @@ TOL = 1e-9
 # a real library defect found by this check (see final report): ClusterSite.fromcrysunit always raises TypeError
 # (it calls cls.fromcryscart(cart_pos) without the crystal).  While it is unrepaired the route is not exercised.
 # (C23_INCLUDE_FROMCRYSUNIT=1 in the environment switches the exclusion off to re-find it.)
-EXCLUDE_FROMCRYSUNIT = os.environ.get("C23_INCLUDE_FROMCRYSUNIT") is None
+EXCLUDE_FROMCRYSUNIT = False  # R20 fixed in /repo (95fc3bb)
 
 BOUNDARY = [0., 0.5, 2. ** -53, 1 - 2. ** -53, 1e-12, 1e-9, 1 - 1e-9, 1 - 3e-8, 3e-8, 0.25, 1. / 3., 2. / 3.]
 
